@@ -1,20 +1,20 @@
 /-
-  C11, expansion half (tree with `discard()`, /repo commit 7623822).
+  C11, expansion half (tree as of /repo commit b64cc56: `discard()` frees the
+  job's unord_blk and takes it out of unord_q; F2, F4, F5 repaired).
 
   PROVED here, for every `n`, slot count, granularity, input abstraction,
   candidate set and interleaving (all reachable states of `Model.SchedD`):
-    order, single mastership, conservation of work units and output slots,
-    the capacities that follow, quiescence at termination,
-    `attach_in_range` (restored: F5 is repaired), `no_unord_leak` (restored: F2
-    is repaired), and the WITNESS that the tight capacity of `unord_q` is
-    still false (F4).
-    conservation of input slots (for `W ≥ 1`), and `progress_partial`: a state
-    without enabled transition is quiescent.
+    order, single mastership, conservation of work units / output slots /
+    input slots, the capacities of retr_q, emit_q, reord_q, output_q, order_q
+    and unord_q, quiescence at termination, no lost block, `attach_in_range`,
+    `no_unord_leak`, and `progress_partial` (a state without enabled
+    transition is quiescent).
   NOT PROVED (checked by the BFS driver `schedd-bfs` and by trace acceptance
-  only, never presented as theorems): the capacity of `order_q`,
-  `|unord_q| ≤ cap + #stale`, wake-up discipline, and the second half of
-  deadlock-freedom (no reachable quiescent state other than the final ones;
-  needs at least `EMIT_THRESH < total_out`, see `progress_partial`).
+  only, never presented as theorems): wake-up discipline (the model has no
+  condition variable: an idle worker may start the selected task at any time),
+  and the second half of deadlock-freedom (no reachable quiescent state other
+  than the final ones; needs at least `EMIT_THRESH < total_out`, see
+  `progress_partial`).
 -/
 import LbzVerif.Lemmas.SchedD.Safe3
 import LbzVerif.Lemmas.SchedD.Attach
@@ -23,6 +23,8 @@ import LbzVerif.Lemmas.SchedD.Cons
 import LbzVerif.Lemmas.SchedD.InSlots
 import LbzVerif.Lemmas.SchedD.Progress
 import LbzVerif.Lemmas.SchedD.Holder2
+import LbzVerif.Lemmas.SchedD.OrderCap
+import LbzVerif.Lemmas.SchedD.UnordCap2
 import LbzVerif.Lemmas.SchedD.Witness
 
 namespace LbzVerif.Props.C11.Expand
@@ -97,6 +99,35 @@ theorem in_slots_conservation {c : Cfg} (hW : 0 < c.W) {s : State} (h : Reach c 
 theorem no_lost_block {c : Cfg} {s : State} (h : Reach c s) :
     (s.failed = false → HI c s) ∧ (terminated c s = true → s.orderQ = []) :=
   ⟨fun hf => hi_reach h hf, fun ht => terminated_order_empty h ht⟩
+
+/-- **unord_cap** (restored after the F4 repair; full strength under the stated
+    hypotheses): with at least one worker, more output slots than the emit
+    reserve (`EMIT_THRESH < total_out`; the shipped slot formulas give
+    `total_out ≥ 2n`, and scanning needs `n ≥ 2`) and non-empty input blocks,
+    `|unord_q| ≤ Gen.unordCap n total_out = n + total_out − UNORD_THRESH` in every
+    reachable state: every entry is backed by a work unit (a live speculative
+    job or an emit job of its finished block) or by an output slot (a buffer of
+    its finished block in `reord_q`), and one work unit and two output slots are
+    always free or held by something non-speculative (`unord_reserve`).  The
+    hypotheses are necessary: BFS finds `|unord_q| > cap` when `total_out ≤ 2`. -/
+theorem unord_q_capacity {c : Cfg} (hW : 0 < c.W) (hn : 1 ≤ c.n) (ho : EMIT_THRESH < c.totalOut)
+    {s : State} (h : Reach c s) (hf : s.failed = false) :
+    unordSize s ≤ unordCap c.n c.totalOut :=
+  unord_cap hW hn ho h hf
+
+/-- on the former F4 run the dropped jobs' entries have left unord_q -/
+example : ∃ s, Reach cfgF4 s ∧ unordSize s = 1 ∧ unordCapOf cfgF4 = 3 := by
+  obtain ⟨s, hr, hp⟩ := reach_of_run f4_repaired
+  simp only [Bool.and_eq_true, decide_eq_true_eq] at hp
+  exact ⟨s, hr, hp.1.1, hp.1.2⟩
+
+/-- **capacity of `order_q`** (full strength): `|order_q| ≤ n + total_out`
+    (`Gen.orderCap`, the extent given to `deque_init(order_q, …)`): entries have
+    pairwise different bases and each has a producer holding a work unit or an
+    output slot. -/
+theorem order_q_capacity {c : Cfg} {s : State} (h : Reach c s) (hf : s.failed = false) :
+    s.orderQ.length ≤ orderCap c.n c.totalOut :=
+  order_cap h hf
 
 /-- **everything is given back** (full strength): when all workers have left
     the loop, no job, buffer or busy worker is left, no `unord_blk` is live. -/
